@@ -43,7 +43,7 @@ def gen_cfg(st: Stream, kind: str) -> Dict[str, Any]:
     if cpu:
         taken += [(0x2000, 0x2FFF), (0xA000, 0xAFFF), (M.CODE_LO, M.CODE_HI)]
     if py:
-        if st.chance(2, 3):
+        if st.chance(4, 5):
             cfg["rom"] = {"k": 3 + st.below(3), "api": "load_rom"}
             taken.append((M.ROM_LO, M.ROM_HI))
         else:
@@ -167,6 +167,8 @@ def gen_ops(st: Stream, m: M.Model, profile: str, nops: int) -> Tuple[List[List[
         if allow_alias and st.chance(2, 5):
             c = m.canon(a)
             al = M.aliases(m, c)
+            if profile == "alias":
+                al = [x for x in al if x[1] in M.STATED_ALIASES]
             if st.chance(1, 2) or not al:
                 a = (a & 0xFFFFFF) + st.below(256) * 0x1000000
             else:
@@ -199,6 +201,8 @@ def gen_ops(st: Stream, m: M.Model, profile: str, nops: int) -> Tuple[List[List[
             continue
         if not allow_alias and not allow_wild and any(f in flags for f in ("a24", "hi-mapped", "hi-plain", "mir")):
             continue
+        if profile == "alias" and any(f in flags for f in ("hi-mapped", "hi-plain")):
+            continue  # the alias profile uses only the aliases the statement names (2^24 wrap, mirror window)
         if "dev" in [m.info(c)[1] for c in m.cells(addr, n)] and not st.chance(1, 3):
             continue
         if store:
